@@ -30,10 +30,10 @@ type c17Chip struct {
 	BusType int    `json:"busType"`
 	BusNr   int    `json:"busNr"`
 	Addr    int    `json:"addr"`
-	Fans    []int  `json:"fans"`   // channels with fanN_input
-	Pwms    []int  `json:"pwms"`   // channels with pwmN
+	Fans    []int  `json:"fans"`    // channels with fanN_input
+	Pwms    []int  `json:"pwms"`    // channels with pwmN
 	Enables []int  `json:"enables"` // channels with pwmN_enable
-	Temps   []int  `json:"temps"`  // N of tempN_input
+	Temps   []int  `json:"temps"`   // N of tempN_input
 }
 
 type c17Entry struct {
